@@ -83,6 +83,19 @@ def impl_case(tree):
 def impl_apply(tree, rn, i):
     rule = core.rule_instance(rn)
     orig = core.tuple_to_py(tree)
+    if core.shash(core.tuple_to_wire(tree), rn, "ids") % 3 == 0:
+        # node ids are labels, not identities: trees assembled from clones of one fragment (and
+        # every result of a rule that clones an operand) carry the same id on several nodes
+        seen = {}
+        for n in core.inorder(orig):
+            try:
+                sig = core.tuple_to_wire(core.strip_tags(core.to_tuple(n)))
+            except core.Unmodelled:
+                continue
+            if sig in seen:
+                n.id = seen[sig]
+            else:
+                seen[sig] = n.id
     try:
         str(orig)   # states are routinely rendered before a rule is applied (agents print them)
     except Exception:
@@ -107,6 +120,10 @@ def impl_apply(tree, rn, i):
             return out
         rroot = res.get_root()
         out["audit"] = core.audit_links(rroot)
+        if not out["audit"]:
+            st = core.eval_stale(rroot)
+            if st is not None:
+                out["eval_stale"] = st
         try:
             res = core.to_tuple(rroot, tags)
             out["impl"] = ("ok", res)
@@ -124,7 +141,7 @@ def impl_apply(tree, rn, i):
         out["orig_modified"] = True
     # second step, applied DIRECTLY to the tree the first rewrite returned (no re-cloning): a rule
     # that reports applicable on a rewritten tree must be appliable there (sampled: 1 case in 3)
-    if out.get("impl", ("",))[0] == "ok" and (hash((core.tuple_to_wire(tree), rn, i)) % 3 == 0):
+    if out.get("impl", ("",))[0] == "ok" and (core.shash(core.tuple_to_wire(tree), rn, i) % 3 == 0):
         try:
             cands = []
             for rn2 in core.RULE_NAMES:
@@ -133,7 +150,7 @@ def impl_apply(tree, rn, i):
                     cands.append((rn2, n2.r_index))
             cands.sort()
             if cands:
-                rn2, idx2 = cands[hash((rn, i, len(cands))) % len(cands)]
+                rn2, idx2 = cands[core.shash(rn, i, len(cands)) % len(cands)]
                 n2 = core.inorder(rroot)[idx2]
                 try:
                     ch2 = core.rule_instance(rn2).apply_to(n2)
@@ -265,6 +282,10 @@ def compare(recs):
             bad = a.get("value")
             if bad is not None:
                 d["value"].append(dict(base, result=res, witness=bad))
+            elif a.get("eval_stale") is not None:
+                # the structure is right but the real evaluate() on the result objects is not the
+                # value of that structure
+                d["value"].append(dict(base, result=res, witness=a["eval_stale"]))
             if model[0] == "err":
                 if model[1] == "outOfDomain":
                     d["skipped"] += 1  # real-valued power folded by the implementation
